@@ -44,6 +44,10 @@ func (e *Engine) doCall(st *State, fr *Frame, res ssa.Value, c *ssa.CallCommon, 
 			return true
 		}
 		dyn := typeByID[id]
+		if _, isPtr := dyn.Underlying().(*types.Pointer); isPtr && e.inModuleIface(c.Value.Type()) {
+			e.AssumedDep["no typed-nil pointer inside a module interface value"]++
+			st.assume(Ne(recv[1], IntC(0)))
+		}
 		ms := e.W.Prog.MethodSets.MethodSet(dyn)
 		sel := ms.Lookup(c.Method.Pkg(), c.Method.Name())
 		if sel == nil {
@@ -137,7 +141,7 @@ func (e *Engine) callFunction(st *State, fr *Frame, res ssa.Value, callee *ssa.F
 				fr.env[res] = e.evalOld(st, fr, at)
 			}
 			return false
-		case (name == "forall" || name == "exists") && len(callee.Blocks) == 0:
+		case (name == "forall" || name == "exists") && strings.HasSuffix(e.W.Fset.Position(callee.Pos()).Filename, "zz_verif_gen.go"):
 			r := e.quantifier(st, fr, name, args)
 			if res != nil {
 				fr.env[res] = Val{r}
